@@ -1,26 +1,100 @@
 """Texts of MANIFEST.json (claimed level, note, technique) per property; properties absent here are not claimed."""
 
+_PYVC = ('contract-based deductive verification: sidecar contracts, verification conditions generated from the ast of the '
+         'real source on every run (pyvc), discharged by z3 then cvc5')
+_BOUNDED = ('run-time contract (postcondition of the property) evaluated on the real code over a bounded-exhaustive and '
+            'seeded-random domain (bounded stand-in, never counted as proved)')
+_ENC = 'pyvc encoding of the Python subset (DESIGN 2.3) and the solvers are trusted; '
+
 TEXTS = {
-    'C05': dict(
-        category='other', engine='pyvc',
-        technique='contract-based deductive verification: VCs generated from the ast of layout.py, discharged by z3/cvc5',
-        text='Proved for all inputs: both fitting predicates return exactly fits(...) of a compositional width semantics '
-             '(iff contract, loop invariant, termination). The link from "predicate true" to "the finished line fits" '
-             '(ghost budget invariant of best_layout) is not proved yet; claimed as other until it is.',
-        note='Assumed: normalize_doc / FlatChoice accessors preserve walk() (trusted contracts, listed in the evidence); '
-             'contextual functions pure and size-bounded; float*int and round() uninterpreted; encoding of DESIGN 2.3.'),
-    'C06': dict(
-        category='other', engine='pyvc',
-        technique='contract-based deductive verification: VCs generated from the ast of layout.py, discharged by z3/cvc5',
-        text='Proved for all inputs: a fitting predicate answers False exactly when the compositional fits() spec is False '
-             '(the other direction of the same iff contract as C05), i.e. a group is broken only for one of the reasons the '
-             'statement lists. The pformat corollary is not decided yet.',
-        note='Same trusted base as C05.'),
+    'C01': dict(category='other', engine='bounded', technique=_BOUNDED,
+                text='Bounded: eval(pformat(v)) is type-exactly equal to v for all value trees of <= 3 nodes (quick; <= 4 thorough) over an '
+                     'adversarial leaf alphabet x a grid of (width, ribbon, indent) x sort_dict_keys, plus deep nestings and seeded random trees. '
+                     'The printers are not yet under proved contracts, so nothing is claimed beyond the bound.',
+                note='CPython eval/ast as oracle; domain bounds are written to the evidence.'),
+    'C02': dict(category='other', engine='bounded', technique=_BOUNDED,
+                text='Bounded: every str/bytes over a 10-symbol adversarial alphabet up to length 4 (5 thorough) in 6 placements x widths, '
+                     'plus str_to_lines and escape_str_for_quote called directly on all strings up to length 5 (6): literals concatenate to the '
+                     'value, no empty piece, b prefix, termination under an alarm.',
+                note='CPython tokenize/ast as oracle; bounds in the evidence.'),
+    'C03': dict(category='other', engine='bounded', technique=_BOUNDED,
+                text='Bounded: ast.dump of the output equal across 77-117 configurations for the C01 corpus, commented values, stdlib '
+                     'instances, subclass instances and a pretty_call user type; every line indented by a multiple of indent.',
+                note='CPython ast as oracle; bounds in the evidence.'),
+    'C04': dict(category='other', engine='pyvc+bounded', technique=_PYVC + '; bounded reference matcher on top',
+                text='Proved for all documents, widths and both strategies (192 obligations): the stack machine best_layout emits exactly '
+                     'den(doc, O), a compositional denotation written from the statement, for the oracle O of the decisions it took '
+                     '(loop invariant dens(stack) after out == den(doc), termination measure, no raise-path), under the precondition hlsafe '
+                     '(no literal hard line in the flat rendering of a group). Normalisation and the FlatChoice accessors enter through '
+                     'contracts that are still assumed; the renderer is not yet under contract: hence level other.',
+                note=_ENC + 'trusted contracts: normalize_doc, FlatChoice.when_flat/when_broken preserve den/walk/wf/size; contextual '
+                     'functions pure, size-bounded, hlsafe (lemma_apply_ctx, lemma_ctx_ok); existence of an agreeing oracle is a meta-argument.'),
+    'C05': dict(category='other', engine='pyvc', technique=_PYVC,
+                text='Proved for all inputs: both fitting predicates return exactly fits(...) of a compositional width semantics (iff contract, '
+                     'loop invariant, termination), and best_layout lays a group out flat only when its predicate said so. The last link '
+                     '(ghost line budget: the finished line stays within the limit) is not proved yet.',
+                note=_ENC + 'same trusted contracts as C04; float*int and round() uninterpreted.'),
+    'C06': dict(category='other', engine='pyvc', technique=_PYVC,
+                text='Proved for all inputs: a fitting predicate answers False exactly when the compositional fits() is False (other direction of '
+                     'the C05 contract), and a group whose content normalises to an always_break is never laid out flat (lemma_forced_fails). '
+                     'The pformat corollary (one-line values stay on one line) is not decided yet.',
+                note=_ENC + 'same trusted contracts as C04.'),
+    'C07': dict(category='other', engine='bounded', technique=_BOUNDED,
+                text='Bounded: 263 boundary values of the 20 shipped stdlib types, all 597 pytz zones, seeded random datetime-family values x 7 '
+                     'nesting contexts x 8 (95 thorough) configurations: no failure warning, eval reconstructs an equal object. Two known findings.',
+                note='CPython eval as oracle.'),
+    'C08': dict(category='other', engine='bounded', technique=_BOUNDED,
+                text='Bounded-exhaustive over 48 subclasses of the nine bases (plain, __repr__/__str__ overrides, enum style, qualified/nested) x '
+                     'base values x 7 contexts x widths: type(eval(out)) is the subclass and the base value is equal.',
+                note='CPython eval as oracle.'),
+    'C09': dict(category='other', engine='bounded', technique=_BOUNDED,
+                text='Bounded: all placements of <= 2 comments/trailing comments on all trees of <= 4 nodes x representative texts, and 59 attach '
+                     'sites x all texts over a 10-character alphabet up to length 3 (4): same AST as uncommented, no fallback, words preserved in order.',
+                note='CPython ast/tokenize as oracle.'),
+    'C10': dict(category='other', engine='bounded', technique=_BOUNDED,
+                text='Bounded: 3777 (9503) container values up to three levels x N in 1..7 and None x 3 widths: eval equals the reference '
+                     'truncation, exactly one exact notice per over-long container, None equals a huge limit.',
+                note='CPython eval/tokenize as oracle.'),
+    'C11': dict(category='other', engine='bounded', technique=_BOUNDED,
+                text='Bounded: 15k (116k) container trees with unique leaves, height <= 4 (5), d in 0..height+2 and None: leaf visibility, '
+                     'placeholder shapes, identity above the cut and beyond the height. Two known findings (atoms below the cut, str key at the cut).',
+                note='CPython ast as oracle.'),
+    'C12': dict(category='other', engine='pyvc+bounded', technique=_PYVC + ' for termination measures; ' + _BOUNDED + ' for the growth law',
+                text='Proved: termination measures of the fitting predicates and of best_layout (stack_size decreases on every iteration, given '
+                     'size-bounded contextual functions). Bounded: interpreter-step counts (sys.monitoring) on 23 input families at n,2n,4n,8n '
+                     'with growth factor <= 6. Known finding: commented dict nesting is exponential.',
+                note=_ENC + 'a contract cannot state a complexity class: the growth law is monitored only.'),
+    'C13': dict(category='other', engine='bounded', technique=_BOUNDED,
+                text='Bounded-exhaustive: every rooted graph of list/dict/tuple-holding-list nodes up to 3 (4) nodes up to isomorphism, random up '
+                     'to 10 nodes, user nodes with failing printers: markers exactly at back edges, shared nodes in full, no residue.',
+                note='reference DFS as oracle.'),
+    'C14': dict(category='other', engine='bounded', technique=_BOUNDED + ' (single-fault enumeration)',
+                text='Bounded: every single fault position x 6 exception classes x {plain, under trailing comment, list under trailing comment} x '
+                     'printers accepting / not accepting trailing_comment on all trees of <= 4 (5) printer invocations; bad return values; sampled pairs.',
+                note='AST of the fault-free print as oracle.'),
+    'C15': dict(category='other', engine='bounded', technique=_BOUNDED,
+                text='Bounded-exhaustive: all operation histories of length <= 3 (4) over 60 operations on a 5-class lattice with a diamond, '
+                     'random histories up to length 12, against the reference dispatch rule of the statement.',
+                note='histories registering one class both directly and by name are outside the statement; one ambiguous flag case accepted either way (DESIGN).'),
+    'C16': dict(category='other', engine='bounded', technique=_BOUNDED + ' (styles x tokens exhaustive)',
+                text='Exhaustive for the finite quantifier styles x tokens (52 x 14 x 3 color modes); bounded for values and for annotated documents '
+                     '(token annotations nested to depth 3 with non-token annotations anywhere): stripped text equals plain text, per-character style, reset at the end.',
+                note='own SGR state machine as oracle; colorful/pygments trusted.'),
+    'C17': dict(category='other', engine='bounded', technique=_BOUNDED,
+                text='Bounded: pretty_call / pretty_call_alt argument lists (all with <= 1 argument, random up to 4+3) and generated dataclass / attrs '
+                     'class definitions (all with <= 1 field, random up to 3-4) x instances x configurations: callee, argument order, field selection, eval.',
+                note='keyword names fn/ctx cannot be passed to pretty_call by Python itself: outside the quantifier for pretty_call (kept for pretty_call_alt).'),
+    'C18': dict(category='other', engine='bounded', technique=_BOUNDED,
+                text='Bounded: 64 explicit/default combinations of the six settings after every sequence of <= 2 (3) set_default_config calls x all entry '
+                     'points (pformat, pprint, cpprint, PrettyPrinter, pretty_repr) x 3 values.',
+                note='pformat under pristine defaults with all settings explicit is the reference.'),
+    'C19': dict(category='other', engine='bounded', technique=_BOUNDED,
+                text='Bounded: 79 corpus entries printed first in fresh interpreters, in whole-corpus orders, and in 48 (1200) in-process sequences with '
+                     'allocation churn; deep snapshots of inputs before/after.',
+                note='fresh-interpreter output is the reference.'),
 }
 
 NOT_APPLICABLE = [
-    {'property_id': 'C20', 'reason': 'interleavings of threads: sequential pre/postconditions have no thread model; outside contract-based deductive verification (DESIGN.md, C20)'},
-] + [
-    {'property_id': p, 'reason': 'check under construction in this session; not claimed until its machinery is committed'}
-    for p in ['C01', 'C02', 'C03', 'C04', 'C07', 'C08', 'C09', 'C10', 'C11', 'C12', 'C13', 'C14', 'C15', 'C16', 'C17', 'C18', 'C19']
+    {'property_id': 'C20', 'reason': 'interleavings of threads: sequential pre/postconditions have no thread model, atomicity or ownership '
+                                     'discipline; outside contract-based deductive verification (DESIGN.md, C20)'},
 ]
